@@ -159,7 +159,8 @@ StepAllow(ev) ==
     LET L == RScaled(prev.liq, 18)
         perRec == RAdd(RMul(L, UlpInc), ROne)
         nrec == Len(prev.recs) + Len(ev.st.recs) + 1
-        accr == IF ev.st.lastUp # prev.lastUp \/ ev.op \in {"collectInc", "withdraw", "add", "create", "swap"}
+        \* claimable amounts are computed with accrual brought up to NOW, so elapsed time alone truncates too
+        accr == IF ev.st.lastUp # prev.lastUp \/ ev.st.t # prev.t \/ ev.op \in {"collectInc", "withdraw", "add", "create", "swap"}
                 THEN RMul(RInt(B!OfInt(2 * nrec)), perRec) ELSE RZero
     IN  accr
 
